@@ -105,7 +105,7 @@ prop("C15", "fault_enumeration", _MQ + "; oracle: once all queues are idle Alloc
 prop("C16", "exploration", _MQ + "; oracle: every operation built into a message is listed in exactly one Sent or Error report; per attached party and message at most one Queued, exactly one Sent/Error, then exactly one close; distinct = distinct trace hash",
      _b(2000, 60, 100000, 1200), probes=["mq-conn", "mq-disc"], technique="deterministic simulation of the real component with seeded fault placement and internal yield points")
 prop("C17", "exploration", _MQ + "; oracle: never two live queue goroutines for one peer (observation hook at start and exit), none alive after the last disconnect, blocks reach the wire in build order; distinct = distinct trace hash",
-     _b(2000, 60, 100000, 1200), probes=["mq-conn", "mq-disc"], technique="deterministic simulation of the real component with seeded fault placement and internal yield points")
+     _b(2000, 60, 100000, 1200), probes=["mq-conn", "mq-disc", "c17-message-order-compared"], technique="deterministic simulation of the real component with seeded fault placement and internal yield points")
 
 prop("C11", "exploration",
      "weak fit, stated as such: the verdict is a function of the message, the simulator adds stream behaviour. Two scripted peers exchange 1-6 generated well-formed messages per run on one stream through the real libp2p_impl.go / v2 codec with fragmented delivery (arbitrary byte counts per read): new/cancel/update requests with zero, negative and extreme priorities, generated selectors and 0-3 extensions (nil, null, scalars, bytes, links, nested maps and lists), responses with every defined status, every link action and 0-4 metadata entries, blocks under CIDv0/dag-pb, identity, sha2-512, dag-cbor and raw prefixes; decoded messages are compared field by field and in order with what was sent; the three extension codecs are round-tripped on generated values; distinct = distinct trace hash",
